@@ -356,7 +356,7 @@ def finish(pid, tier, seed, mod, results, problems, nshards, t0, kn):
     coverage = {
         'evaluations': evaluations,
         'distinct_nontrivial': len(sigs),
-        'rule': getattr(mod, 'RULE', ''),
+        'rule': getattr(mod, 'RULE', '') + getattr(mod, 'RULE_ADDED', ''),
         'samples': samples,
         'observed': dict(sorted(counters.items())),
         'skips': dict(skips),
